@@ -27,6 +27,48 @@ A change method that raises inside its documented domain (levels with min <
 max, lo < hi, lo > 0 for exprange, positive total duration) is reported as
 C19/derived-envelope-raises/<method>/<exception>/<site>: the derived envelope,
 whose encoding and evaluation the property is about, cannot be obtained.
+
+Re-specification ('respec' steps; the class "attribute assignments that change
+the SEGMENT COUNT of an existing envelope").  The parameters of an Env are
+plain attributes and the server formats are computed from whatever they hold
+when the envelope is encoded, so an existing envelope - built by Env(...) or by
+a standard constructor (30% of the histories start from Env.adsr(...),
+Env.perc(...), ... with random parameters), encoded before or not, copied,
+derived, stretched before or not - can be given more or fewer segments by
+assigning new `levels` and `times` (both always), new `curves` (scalar, one per
+new segment, shorter, of the OLD segment count) and new nodes, in a random
+order: all orders of levels / times / curves are drawn (counters
+reuse_respec_order_*).  Values are assigned as the user would write them: a
+list with one duration per NEW segment, levels for the NEW count.
+
+  * The harness keeps the values it assigned ("truth"); the expected arrays are
+    the model's encoding of the ASSIGNED values (not of what is read back), and
+    a fresh Env(levels, times, curves, release_node, loop_node, offset) built
+    from them must evaluate to the same numbers.
+  * Between the assignments the object is used (format / interpolation format /
+    control input / _at / EnvGen definition) only when the intermediate
+    object is consistent: `times` holds exactly one duration per segment of the
+    current `levels` and a `curves` list is not longer than that.  An
+    inconsistent intermediate state is never encoded or evaluated (what it
+    would give is not defined by the property), but the assignment that leads
+    into or out of it must not raise and must not change the list it is given.
+  * After the last assignment the object is consistent: both formats and _at
+    are checked.
+
+A wrong array or an exception at a use is keyed, before the diagnosis above,
+by what the object reads back: when a public attribute no longer equals the
+value that was assigned to it (assigned values are kept as given: wrapping of
+curves is done when the envelope is encoded, the wrapping of times in the
+constructor) ->
+      C19/object-reuse/assigned-value-not-kept/<attribute>
+An assignment that raises -> C19/object-reuse/assignment-raises/<attribute>/
+<exception>/<site>; one that changes the list it was given ->
+C19/object-reuse/assignment-mutates-value/<attribute>.
+
+Originals: the object a copy was taken from (copy.copy, range / exprange /
+curverange) is kept with its parameters; at the end of the history, after the
+copy has been re-specified / stretched / used, it must still encode as its own
+parameters say -> C19/object-reuse/original-changed-by-history-of-copy.
 """
 
 import copy
@@ -35,6 +77,18 @@ from vf.common import iter_cases, case_rng, h64, short_tb, tb_sites
 
 PARAMS = ('levels', 'times', 'curves', 'release_node', 'loop_node')
 USES = ('format', 'control', 'at', 'envgen', 'iformat', 'ienvgen')
+ORDERS3 = ('levels-times-curves', 'levels-curves-times', 'times-levels-curves',
+           'times-curves-levels', 'curves-levels-times', 'curves-times-levels')
+ORDERS2 = ('levels-times', 'times-levels')
+
+
+class _Skip(Exception):
+    """A fresh object deviates from the model as well: sequential deviation,
+    the subject of the other shards."""
+
+
+class _Failed(Exception):
+    """A violation was recorded; the history ends."""
 
 
 def current(env):
@@ -43,13 +97,22 @@ def current(env):
     return p
 
 
+def consistent(p):
+    """One duration per segment of the levels; a curves list not longer."""
+    nseg = len(p['levels']) - 1
+    return (isinstance(p['times'], list) and len(p['times']) == nseg
+            and not (isinstance(p['curves'], list)
+                     and len(p['curves']) > max(nseg, 1)))
+
+
 def gen_history(rng, nseg):
     n = rng.randint(3, 10)
     uses = ['format', 'format', 'iformat', 'iformat', 'control', 'at', 'at',
             'envgen', 'ienvgen']
     changes = ['duration', 'range', 'exprange', 'curverange', 'copy',
                'assign-release_node', 'assign-loop_node', 'assign-times',
-               'assign-levels', 'assign-curves', 'assign-offset']
+               'assign-levels', 'assign-curves', 'assign-offset',
+               'respec', 'respec', 'respec', 'respec', 'respec']
     out = []
     for _ in range(n):
         if rng.random() < 0.62:
@@ -59,6 +122,77 @@ def gen_history(rng, nseg):
     if not any(o in uses for o in out[-2:]):
         out.append(rng.choice(['format', 'at', 'iformat']))
     return out
+
+
+def gen_respec(rng, G, n, old_curves, dyadic):
+    """A re-specification of an envelope that has n segments -> (kind, values,
+    order): the attribute values to assign and the order of the assignments.
+    `levels` and `times` are always assigned (one duration per NEW segment)."""
+    r = rng.random()
+    if r < 0.45 or (n == 1 and r < 0.85):
+        kind, m = 'grow', n + rng.randint(1, rng.choice([1, 2, 3, 6]))
+    elif r < 0.85:
+        kind, m = 'shrink', rng.randint(1, n - 1)
+    else:
+        kind, m = 'same-count', n
+    m = min(m, 14)
+    if m == n:
+        kind = 'same-count'
+    vals = {'levels': [G.gen_level(rng, 'any') for _ in range(m + 1)],
+            'times': [G.gen_dur(rng, dyadic) for _ in range(m)]}
+    if rng.random() < 0.12:
+        vals['levels'][rng.randrange(m + 1)] = [
+            G.gen_level(rng, 'any') for _ in range(rng.randint(2, 3))]
+    if rng.random() < 0.08:
+        vals['times'][rng.randrange(m)] = [
+            G.gen_dur(rng, dyadic) for _ in range(2)]
+    too_long = isinstance(old_curves, list) and len(old_curves) > m
+    if too_long or rng.random() < 0.55:
+        form = rng.choice(['name', 'number', 'list-equal', 'list-equal',
+                           'list-shorter', 'list-old-count'])
+        if form == 'list-old-count' and n > m:
+            form = 'list-equal'
+        if form == 'name':
+            vals['curves'] = rng.choice(G.ANY_SIGN_NAMES + G.CUB_NAMES)
+        elif form == 'number':
+            vals['curves'] = rng.choice([-4, 2.0, 0, 4.5, -1, 1e-5,
+                                         round(rng.uniform(-10, 10), 2)])
+        else:
+            k = {'list-equal': m, 'list-shorter': rng.randint(1, m),
+                 'list-old-count': n}[form]
+            vals['curves'] = [G.gen_curve_item(rng, 'any') for _ in range(k)]
+            if rng.random() < 0.1:
+                vals['curves'][rng.randrange(k)] = [
+                    G.gen_curve_item(rng, 'any') for _ in range(2)]
+    if rng.random() < 0.4:
+        vals['release_node'] = rng.choice([None, rng.randint(0, m - 1)])
+    if rng.random() < 0.2:
+        vals['loop_node'] = rng.choice([None, 0])
+    order = list(vals)
+    rng.shuffle(order)
+    return kind, vals, order
+
+
+def gen_start(rng, G):
+    """-> (description for the witness, callable(Env) -> object, dyadic)."""
+    if rng.random() < 0.7:
+        # sign-agnostic shapes: range / exprange move the levels across signs
+        a = G.gen_env_args(rng, cls='any')
+        args = {k: a[k] for k in PARAMS}
+        return args, (lambda Env: Env(**copy.deepcopy(args))), a['dyadic']
+    bad = set(G.EXP_NAMES) | {'sqr', 'squared'}
+    while True:
+        name, kw, flags = G.gen_ctor_kwargs(rng)
+        cv = [kw.get('curve'), kw.get('curves')] + [
+            q[2] for q in kw.get('xyc', [])]
+        flat = []
+        for c in cv:
+            flat += c if isinstance(c, list) else [c]
+        if not any(isinstance(c, str) and c in bad for c in flat):
+            break
+    args = {'constructor': name, 'kwargs': kw}
+    return (args, (lambda Env: getattr(Env, name)(**copy.deepcopy(kw))),
+            bool(flags.get('dyadic')))
 
 
 def run_reuse(spec, acc):
@@ -74,26 +208,33 @@ def run_reuse(spec, acc):
 
     for i in iter_cases(spec):
         rng = case_rng(spec['seed'], 'C19', 'reuse', i)
-        # sign-agnostic shapes: range / exprange move the levels across signs
-        a = G.gen_env_args(rng, cls='any')
-        args = {k: a[k] for k in PARAMS}
-        nseg = len(args['levels']) - 1
-        hist = gen_history(rng, nseg)
+        args, build, dyadic = gen_start(rng, G)
+        hist = gen_history(rng, None)
         try:
-            env = Env(**copy.deepcopy(args))
+            env = build(Env)
+            if len(env.levels) < 2 or not consistent(current(env)):
+                raise ValueError('start object outside the histories')
         except Exception:
             acc.count('reuse_skipped_not_constructible')
             continue
         log = []            # steps done so far (witness)
-        failed = False
         acc.case(h64((repr(args), hist)),
                  nontrivial=any(h in ('iformat', 'ienvgen') for h in hist)
                  and any(h in ('format', 'at', 'control', 'envgen')
                          for h in hist))
         acc.count('reuse_histories')
+        if 'constructor' in args:
+            acc.count('reuse_start_standard_constructor')
+            acc.count('reuse_start_' + args['constructor'])
 
         versions = [current(env)]   # parameter versions of the lineage
         changes = []                # kind of the change after version k
+        # the parameters the object has according to the history: what was
+        # read after a computed change (duration setter, derived copy), what
+        # was ASSIGNED after an assignment
+        truth = [current(env)]
+        kept = []                   # (original object, its parameters)
+        st = {'encoded': False}     # a format was computed since the last change
 
         def model(side, p):
             if side == 'envgen-side':
@@ -127,135 +268,218 @@ def run_reuse(spec, acc):
                     pass
             return f'C19/object-reuse/{side}-wrong'
 
+        def not_kept():
+            """Name of a public attribute that no longer holds the value the
+            history gave it (None when all do)."""
+            try:
+                now = current(env)
+            except Exception:
+                return None
+            for k in ('times', 'levels', 'curves', 'release_node',
+                      'loop_node', 'offset'):
+                if now[k] != truth[0][k]:
+                    return k
+            return None
+
+        def key_for(side):
+            nk = not_kept()
+            if nk:
+                return 'C19/object-reuse/assigned-value-not-kept/' + nk
+            return blame(side, env)
+
         def changed(kind):
             versions.append(current(env))
             changes.append(kind)
+            st['encoded'] = False
 
-        fresh_ok = [True]
-        for step in hist:
-            log.append(step)
-            acc.count('reuse_step_' + step)
-            witness = {'case': i, 'args': args, 'history': list(log)}
+        def witness():
+            return {'case': i, 'args': args, 'history': list(log)}
+
+        def use(step):
+            """One use of the object, judged by the parameters in truth[0].
+            Raises _Failed after recording a violation, _Skip when a fresh
+            object deviates from the model too."""
+            cur = truth[0]
+            pp = {k: cur[k] for k in PARAMS}
+            want = M.encode(**pp)
+            wanti = M.encode_interpolation(
+                cur['levels'], cur['times'], cur['curves'], cur['offset'])
+            # does a fresh object agree with the model?  If not the
+            # deviation is sequential (other shards' subject)
             try:
-                cur = current(env)
-                if step in ('format', 'control', 'at', 'envgen', 'iformat',
-                            'ienvgen'):
-                    pp = {k: cur[k] for k in PARAMS}
-                    want = M.encode(**pp)
-                    wanti = M.encode_interpolation(
-                        cur['levels'], cur['times'], cur['curves'],
-                        cur['offset'])
-                    fresh = Env(**copy.deepcopy(pp), offset=cur['offset'])
-                    # does a fresh object agree with the model?  If not the
-                    # deviation is sequential (other shards' subject)
-                    fresh_ok[0] = not M.same_arrays(
-                        [list(t) for t in fresh._envgen_format()], want)
-                    if not fresh_ok[0]:
-                        acc.count('reuse_skipped_sequential_deviation')
-                        break
-                if step in ('format', 'control'):
-                    got = env._envgen_format() if step == 'format' else \
-                        env._as_control_input()
-                    if step == 'control' and len(want) == 1:
-                        got = [got]
-                    got = [list(t) for t in got]
-                    acc.count('reuse_envgen_side_checks')
-                    d = M.same_arrays(got, want)
-                    if d:
-                        acc.violation(blame('envgen-side', env), dict(
-                            witness, differs=d, got=got[:2], expected=want[:2],
-                            current=cur))
-                        failed = True
-                elif step == 'iformat':
-                    got = [list(t) for t in env._interpolation_format()]
-                    acc.count('reuse_interpolation_side_checks')
-                    d = M.same_arrays(got, wanti)
-                    if d:
-                        acc.violation(blame('interpolation-side', env), dict(
-                            witness, differs=d, got=got[:2],
-                            expected=wanti[:2], current=cur))
-                        failed = True
-                elif step == 'at':
-                    nch = len(want)
-                    total = max(sum(arr[5::4]) for arr in want)
-                    for t in (0, total * rng.choice([0.25, 0.5, 0.75]), total,
-                              total + 1):
-                        v = env._at(t)
-                        w = fresh._at(t)
-                        acc.count('reuse_at_checks')
-                        bad = v != w and not (v != v and w != w)
-                        if not bad and cur['offset'] == 0 and t >= 0:
-                            vs = v if nch > 1 else [v]
-                            for c in range(nch):
-                                l0, segs = M.segments(want[c])
-                                ok, where, why = M.value_ok(
-                                    [l0] + [s[0] for s in segs],
-                                    [s[1] for s in segs],
-                                    [s[2] for s in segs], t, vs[c], False)
-                                if not ok and not any(
-                                        s[2] == 7 for s in segs):
-                                    bad = True
-                        if bad:
-                            acc.violation(blame('envgen-side', env), dict(
-                                witness, t=t, got=v, fresh_equal_env=w,
-                                current=cur))
-                            failed = True
-                            break
-                elif step in ('envgen', 'ienvgen'):
-                    e = env
+                fresh = Env(**copy.deepcopy(pp), offset=cur['offset'])
+                dev = M.same_arrays(
+                    [list(t) for t in fresh._envgen_format()], want)
+            except Exception:
+                dev = 'raises'
+            if dev:
+                acc.count('reuse_skipped_sequential_deviation')
+                raise _Skip()
+            try:
+                _use(step, cur, want, wanti, fresh)
+            except (_Failed, _Skip):
+                raise
+            except Exception as e:
+                nk = not_kept()
+                acc.violation(
+                    'C19/object-reuse/assigned-value-not-kept/' + nk if nk
+                    else f'C19/object-reuse/{step}-raises/'
+                         f'{type(e).__name__}/{site(e)}',
+                    dict(witness(), use=step, tb=short_tb(e), current=cur,
+                         read_back=_safe_current(env)))
+                raise _Failed()
+            st['encoded'] = True
 
-                    def graph():
-                        if step == 'envgen':
-                            Out.kr(0, EnvGen.kr(e, 1.0, 1.0, 0.0, 1.0, 0))
-                        else:
-                            Out.kr(0, IEnvGen.kr(e, 0.5))
-                    d = scgf.parse(SynthDef('c19r', graph).as_bytes())
-                    cls = 'EnvGen' if step == 'envgen' else 'IEnvGen'
-                    units = [u for u in d.units if u.cls == cls]
-                    head = [1.0, 1.0, 0.0, 1.0, 0.0] if step == 'envgen' \
-                        else [0.5]
-                    exp = want if step == 'envgen' else wanti
-                    side = 'envgen-side' if step == 'envgen' else \
-                        'interpolation-side'
-                    acc.count('reuse_defs_decoded')
-                    ok = len(units) == len(exp)
-                    if ok:
-                        for u, arr in zip(units, exp):
-                            vals = [d.constants[x[1]] if x[0] == 'c' else None
-                                    for x in u.inputs]
-                            wv = [M.f32(x) for x in head + arr]
-                            if len(vals) != len(wv) or any(
-                                    g is None or (g != w and abs(g - w) >
-                                                  2.0 ** -23 * abs(w))
-                                    for g, w in zip(vals, wv)):
-                                ok = False
-                                break
-                    if not ok:
-                        acc.violation(blame(side, env), dict(
-                            witness, units=[repr(u) for u in units][:2],
-                            expected=exp[:2], current=cur))
-                        failed = True
-                elif step == 'duration':
-                    if isinstance(env.total_duration(), (int, float)) \
-                            and env.total_duration() > 0:
-                        env.duration = rng.choice([1, 2.0, 0.5, 3,
-                                                   rng.uniform(0.1, 8)])
-                        changed('duration-setter')
-                elif step in ('range', 'exprange', 'curverange'):
-                    flat = utl.flat(env.levels) if hasattr(utl, 'flat') \
-                        else env.levels
-                    if min(flat) < max(flat):
-                        lo, hi = sorted(rng.sample(
-                            [0.1, 0.25, 0.5, 1, 2, 3.5, 10, 100], 2))
-                        if step == 'range' and rng.random() < 0.4:
-                            lo = -lo
-                        new = getattr(env, step)(lo, hi)
-                        if rng.random() < 0.8:
-                            env = new
-                            changed('derived-copy')
-                elif step == 'copy':
-                    env = copy.copy(env)
-                else:       # assign-<attribute>
+        def _use(step, cur, want, wanti, fresh):
+            if step in ('format', 'control'):
+                got = env._envgen_format() if step == 'format' else \
+                    env._as_control_input()
+                if step == 'control' and len(want) == 1:
+                    got = [got]
+                got = [list(t) for t in got]
+                acc.count('reuse_envgen_side_checks')
+                d = M.same_arrays(got, want)
+                if d:
+                    acc.violation(key_for('envgen-side'), dict(
+                        witness(), differs=d, got=got[:2], expected=want[:2],
+                        current=cur, read_back=_safe_current(env)))
+                    raise _Failed()
+            elif step == 'iformat':
+                got = [list(t) for t in env._interpolation_format()]
+                acc.count('reuse_interpolation_side_checks')
+                d = M.same_arrays(got, wanti)
+                if d:
+                    acc.violation(key_for('interpolation-side'), dict(
+                        witness(), differs=d, got=got[:2],
+                        expected=wanti[:2], current=cur,
+                        read_back=_safe_current(env)))
+                    raise _Failed()
+            elif step == 'at':
+                nch = len(want)
+                total = max(sum(arr[5::4]) for arr in want)
+                for t in (0, total * rng.choice([0.25, 0.5, 0.75]), total,
+                          total + 1):
+                    v = env._at(t)
+                    w = fresh._at(t)
+                    acc.count('reuse_at_checks')
+                    bad = v != w and not (v != v and w != w)
+                    if not bad and cur['offset'] == 0 and t >= 0:
+                        vs = v if nch > 1 else [v]
+                        for c in range(nch):
+                            l0, segs = M.segments(want[c])
+                            ok, where, why = M.value_ok(
+                                [l0] + [s[0] for s in segs],
+                                [s[1] for s in segs],
+                                [s[2] for s in segs], t, vs[c], False)
+                            if not ok and not any(
+                                    s[2] == 7 for s in segs):
+                                bad = True
+                    if bad:
+                        acc.violation(key_for('envgen-side'), dict(
+                            witness(), t=t, got=v, fresh_equal_env=w,
+                            current=cur, read_back=_safe_current(env)))
+                        raise _Failed()
+            elif step in ('envgen', 'ienvgen'):
+                e = env
+
+                def graph():
+                    if step == 'envgen':
+                        Out.kr(0, EnvGen.kr(e, 1.0, 1.0, 0.0, 1.0, 0))
+                    else:
+                        Out.kr(0, IEnvGen.kr(e, 0.5))
+                d = scgf.parse(SynthDef('c19r', graph).as_bytes())
+                cls = 'EnvGen' if step == 'envgen' else 'IEnvGen'
+                units = [u for u in d.units if u.cls == cls]
+                head = [1.0, 1.0, 0.0, 1.0, 0.0] if step == 'envgen' \
+                    else [0.5]
+                exp = want if step == 'envgen' else wanti
+                side = 'envgen-side' if step == 'envgen' else \
+                    'interpolation-side'
+                acc.count('reuse_defs_decoded')
+                ok = len(units) == len(exp)
+                if ok:
+                    for u, arr in zip(units, exp):
+                        vals = [d.constants[x[1]] if x[0] == 'c' else None
+                                for x in u.inputs]
+                        wv = [M.f32(x) for x in head + arr]
+                        if len(vals) != len(wv) or any(
+                                g is None or (g != w and abs(g - w) >
+                                              2.0 ** -23 * abs(w))
+                                for g, w in zip(vals, wv)):
+                            ok = False
+                            break
+                if not ok:
+                    acc.violation(key_for(side), dict(
+                        witness(), units=[repr(u) for u in units][:2],
+                        expected=exp[:2], current=cur,
+                        read_back=_safe_current(env)))
+                    raise _Failed()
+
+        def assign(attr, val):
+            """setattr with a private copy of val; the value must be taken as
+            given (no exception, the list handed over is not changed)."""
+            given = copy.deepcopy(val)
+            try:
+                setattr(env, attr, given)
+            except Exception as e:
+                acc.violation(
+                    f'C19/object-reuse/assignment-raises/{attr}/'
+                    f'{type(e).__name__}/{site(e)}',
+                    dict(witness(), attribute=attr, value=val,
+                         tb=short_tb(e)))
+                raise _Failed()
+            if given != val:
+                acc.violation(
+                    f'C19/object-reuse/assignment-mutates-value/{attr}',
+                    dict(witness(), attribute=attr, value=val, after=given))
+                raise _Failed()
+            truth[0] = dict(truth[0], **{attr: copy.deepcopy(val)})
+            changed('attribute-assignment')
+
+        def respec():
+            n = len(truth[0]['levels']) - 1
+            kind, vals, order = gen_respec(rng, G, n, truth[0]['curves'],
+                                           dyadic)
+            log[-1] = ['respec', kind, order, vals]
+            acc.count('reuse_respec_' + kind)
+            if st['encoded']:
+                acc.count('reuse_respec_of_encoded_object')
+            main = [a for a in order if a in ('levels', 'times', 'curves')]
+            acc.count('reuse_respec_order_' + '-'.join(main))
+            for k, attr in enumerate(order):
+                assign(attr, vals[attr])
+                acc.count('reuse_respec_assignments')
+                if k == len(order) - 1:
+                    break
+                if not consistent(truth[0]):
+                    acc.count('reuse_respec_inconsistent_intermediates')
+                    continue
+                acc.count('reuse_respec_consistent_intermediates')
+                if rng.random() < 0.6:
+                    u = rng.choice(['format', 'format', 'iformat', 'iformat',
+                                    'at', 'control', 'envgen', 'ienvgen'])
+                    log.append('respec:' + u)
+                    acc.count('reuse_respec_intermediate_uses')
+                    use(u)
+            # all values assigned: the object is the envelope of these values
+            for u in ('format', 'iformat', 'at'):
+                log.append('respec-done:' + u)
+                use(u)
+            acc.count('reuse_respec_final_checks')
+            if kind != 'same-count':
+                acc.count('reuse_respec_segment_count_changed')
+
+        try:
+            for step in hist:
+                log.append(step)
+                acc.count('reuse_step_' + step)
+                if step in USES:
+                    use(step)
+                    continue
+                if step == 'respec':
+                    respec()
+                    continue
+                if step.startswith('assign-'):
                     attr = step.split('-', 1)[1]
                     n = len(env.levels) - 1
                     if attr == 'release_node':
@@ -263,8 +487,7 @@ def run_reuse(spec, acc):
                     elif attr == 'loop_node':
                         val = rng.choice([None, 0])
                     elif attr == 'times':
-                        val = [G.gen_dur(rng, a['dyadic']) or 1
-                               for _ in range(n)]
+                        val = [G.gen_dur(rng, dyadic) or 1 for _ in range(n)]
                     elif attr == 'offset':
                         val = rng.choice([0, 1, 0.5, -2.0])
                     elif attr == 'levels':
@@ -273,25 +496,73 @@ def run_reuse(spec, acc):
                         val = rng.choice(['lin', 'sin', -4, 2.0, 'wel',
                                           ['lin', 3]])
                     if getattr(env, attr) != val:
-                        setattr(env, attr, val)
-                        changed('attribute-assignment')
-            except Exception as e:
-                if step in USES:
-                    acc.violation(
-                        f'C19/object-reuse/{step}-raises/{type(e).__name__}/'
-                        f'{site(e)}', dict(witness, tb=short_tb(e)))
-                    failed = True
-                else:
+                        assign(attr, val)
+                    continue
+                try:
+                    if step == 'duration':
+                        if isinstance(env.total_duration(), (int, float)) \
+                                and env.total_duration() > 0:
+                            env.duration = rng.choice([1, 2.0, 0.5, 3,
+                                                       rng.uniform(0.1, 8)])
+                            changed('duration-setter')
+                            truth[0] = current(env)
+                    elif step in ('range', 'exprange', 'curverange'):
+                        flat = utl.flat(env.levels) if hasattr(utl, 'flat') \
+                            else env.levels
+                        if min(flat) < max(flat):
+                            lo, hi = sorted(rng.sample(
+                                [0.1, 0.25, 0.5, 1, 2, 3.5, 10, 100], 2))
+                            if step == 'range' and rng.random() < 0.4:
+                                lo = -lo
+                            new = getattr(env, step)(lo, hi)
+                            if rng.random() < 0.8:
+                                kept.append((env, copy.deepcopy(truth[0])))
+                                env = new
+                                changed('derived-copy')
+                                truth[0] = current(env)
+                    elif step == 'copy':
+                        kept.append((env, copy.deepcopy(truth[0])))
+                        env = copy.copy(env)
+                except Exception as e:
                     # a documented public method of the envelope, called
                     # inside its documented domain, that cannot produce the
                     # derived / changed envelope at all
                     acc.violation(
                         f'C19/derived-envelope-raises/{step}/'
                         f'{type(e).__name__}/{site(e)}',
-                        dict(witness, tb=short_tb(e)))
-                    failed = True
-            if failed:
-                break
-        if not failed and acc.want_sample() and len(hist) <= 6 \
-                and len(repr(args)) < 300:
-            acc.sample({'case': i, 'args': args, 'history': hist})
+                        dict(witness(), tb=short_tb(e)))
+                    raise _Failed()
+            # the objects copies were taken from still are what they were
+            for obj, p in kept[-3:]:
+                pp = {k: p[k] for k in PARAMS}
+                want = M.encode(**pp)
+                fresh = Env(**copy.deepcopy(pp), offset=p['offset'])
+                if M.same_arrays([list(t) for t in fresh._envgen_format()],
+                                 want):
+                    continue
+                acc.count('reuse_originals_rechecked')
+                try:
+                    got = [list(t) for t in obj._envgen_format()]
+                    d = M.same_arrays(got, want)
+                except Exception as e:
+                    got, d = short_tb(e), 'raises'
+                if d:
+                    acc.violation(
+                        'C19/object-reuse/original-changed-by-history-of-copy',
+                        dict(witness(), differs=d, got=got[:2],
+                             expected=want[:2], original=p))
+                    raise _Failed()
+        except _Failed:
+            continue
+        except _Skip:
+            continue
+        if acc.want_sample() and len(hist) <= 6 \
+                and len(repr(args)) < 300 and len(repr(log)) < 900:
+            acc.sample({'case': i, 'args': args, 'history': log})
+
+
+def _safe_current(env):
+    try:
+        return current(env)
+    except Exception as e:
+        return f'{type(e).__name__}: {e}'
